@@ -293,3 +293,30 @@ M('c14-async-delimit-chunk-size-none', 'C14', 'R14', 'falcon/asgi/reader.py',
 # negative controls verified by hand with --root (silent): `chunk_size=self._chunk_size` by keyword on the sync reader, positionally on
 # the async one; `chunk = self._chunk_size; return BufferedReader(read, ..., chunk)`; `self.__class__(...)`; `cls = type(self); cls(...)`.
 # `self._chunk_size * 2` is an unknown idiom (exit 2)
+
+# ----------------------------------------------------------------------- R13 (asynchronous reader) a replaced buffer takes the cursor with it (seeded s8-c14-3)
+_EXH = "    async def exhaust(self) -> None:\n        await self.pipe()\n"
+M('c14-async-exhaust-drops-buffer-keeps-cursor', 'C14', 'R13', A, _EXH,
+  "    async def exhaust(self) -> None:\n        self._buffer = b''\n        self._buffer_len = 0\n\n"
+  "        async for _ in self._source:\n            pass\n")
+M('c14-async-peek-trims-without-cursor-reset', 'C14', None, A,
+  "        if self._buffer_pos > 0:\n            self._trim_buffer()\n\n        if self._buffer_len < size:\n",
+  "        if self._buffer_pos > 0:\n            self._buffer = self._buffer[self._buffer_pos :]\n"
+  "            self._buffer_len -= self._buffer_pos\n\n        if self._buffer_len < size:\n", also=('C13',))
+M('c14-async-trim-buffer-keeps-cursor', 'C14', None, A,
+  "        self._buffer_len -= self._buffer_pos\n        self._buffer_pos = 0\n", "        self._buffer_len -= self._buffer_pos\n", also=('C13',))
+# negative controls verified by hand with --root (silent): exhaust() that also stores `self._buffer_pos = 0`; exhaust() as
+# `self._buffer_pos = self._buffer_len` + draining the source
+
+# ----------------------------------------------------------------------- R15 the declared length is the budget, 0 included (seeded s8-c14-2)
+_BUD = "        self._max_bytes_remaining = max_stream_len\n"
+M2('c14-sync-zero-length-means-unbounded', 'C14', 'R15', [
+    {'file': S, 'old': "import io\n", 'new': "import io\nimport sys\n"},
+    {'file': S, 'old': _BUD, 'new': "        self._max_bytes_remaining = max_stream_len or sys.maxsize\n"}])
+M2('c14-sync-falsy-length-replaced', 'C14', 'R15', [
+    {'file': S, 'old': "import io\n", 'new': "import io\nimport sys\n"},
+    {'file': S, 'old': _BUD, 'new': "        if not max_stream_len:\n            max_stream_len = sys.maxsize\n" + _BUD}])
+M('c14-sync-budget-one-more-than-declared', 'C14', 'R15', S, _BUD, "        self._max_bytes_remaining = max_stream_len + 1\n")
+# negative controls verified by hand with --root (silent): `sys.maxsize if max_stream_len is None else max_stream_len`;
+# `limit = max_stream_len` / `if limit is None: limit = sys.maxsize` / `max(limit, 0)`; `int(max_stream_len)`; a guard
+# `if max_stream_len < 0: raise ValueError`
